@@ -41,19 +41,28 @@ EXPLANATION = ("Exhaustive: every isomorphism class of graphs with <= 3 nodes (q
                "Seeded: random graphs <= 9 nodes, symmetric families (cycles, K_mn, cube, Petersen, mixed-order skeletons), rule pairs.")
 TRUSTED_BASE = [
     "Coq 8.16.1 kernel + vm_compute (no native_compute)",
-    "hand-written model coq/model/C08_Model.v tied to synkit/Graph/canon_graph.py, Graph/Canon/{canon_graph,nauty,canon_algs}.py by the per-run "
-    "correspondence (canonical permutation, best label, every _refine call, serialisation strings)",
+    "hand-written model coq/model/C08_Model.v tied to synkit/Graph/canon_graph.py, Graph/Canon/{canon_graph,nauty,canon_algs}.py, "
+    "Graph/syn_graph.py (SynGraph/CanonicalGraph __eq__) by the per-run correspondence (canonical permutation, best label, every "
+    "_refine call, serialisation strings, equality pattern of the digests, wrapper equality verdicts)",
     "harness encoder harness/props/C08.py (graph -> Gallina literal: element strings as code points, orders in half-units, "
     "WL colours / Morgan labels shipped as order-preserving ranks)",
     "networkx Graph semantics (one attribute dict per unordered pair, relabel_nodes); CPython str/tuple ordering, repr of int/float/bool/str",
-    "SHA-256 truncated to 128 bits is collision-free on the strings compared (explicit premise digest_inj of C08_sig_sound)",
+    "SHA-256 truncated to 128 bits does not collide on the strings compared: explicit premise of C08_signature_sound_* and "
+    "C08_value_objects_*; monitored on every run (equality pattern of the digests = equality pattern of the model's strings)",
 ]
-ASSUMPTIONS = ["node ids are non-negative ints; element symbols are ASCII without quotes/backslashes; charge/hcount ints, aromatic bool",
-               "bond orders / standard_order are half-integer floats (never a mix of int and float for the same value)",
-               "undirected simple graphs without self-loops (networkx.Graph)"]
-TESTED_NOT_PROVED = ["WL colours and Morgan labels are external inputs of the model (any ranking): invariance is not claimed for these back-ends",
-                     "SynRule/SynGraph/CanonicalGraph wrappers: oracle only (their equality is signature equality by reading)",
-                     "ITS graphs with tuple-valued orders (SynRule.rc): oracle only"]
+ASSUMPTIONS = ["node ids are non-negative ints; element symbols are ASCII letters/digits/'*' (premise els_ok of the soundness and invariance "
+               "theorems: the serialisation quotes them without escaping); charge/hcount ints, aromatic bool",
+               "bond orders / standard_order are half-integer floats (never a mix of int and float for the same value); a missing "
+               "standard_order is a covered value of its own (the signature prints 0 vs 0.0, the nauty label '' vs '0.0')",
+               "undirected simple graphs without self-loops (networkx.Graph): premise wf of the theorems"]
+TESTED_NOT_PROVED = ["WL colours and Morgan labels are external inputs of the model (any ranking): faithfulness, soundness and "
+                     "'function of the graph given the ranking' are proved for every ranking; that the rankings themselves are a function "
+                     "of the graph is only exercised by the oracle (no invariance is claimed for these back-ends)",
+                     "SynRule: the decomposition of an ITS graph into (rc, left, right), explicit-hydrogen stripping and tuple-valued ITS "
+                     "orders are outside the model - the rule clause is proved for three fragment graphs with scalar orders and checked on "
+                     "real rules by the oracle only (45 rule cases)",
+                     "whole-family soundness batches with more than 60 graphs (all 4-node classes) are oracle-only",
+                     "hash() consistency of the wrappers (equal objects have equal hashes): oracle only"]
 
 
 # ------------------------------------------------------------------ helpers (plain python)
@@ -87,7 +96,8 @@ def _ekey(a):
     o = a.get("order", 0)
     if isinstance(o, (list, tuple)):
         o = tuple(float(x) for x in o)
-    return (o, a.get("standard_order", 0))
+    so = a.get("standard_order")
+    return (o, None if so is None else float(so))
 
 
 def _views(G, nf, ef):
@@ -665,7 +675,13 @@ def _mutant(g, rng):
     z = rng.random()
     if z < 0.3 and h["edges"]:
         e = rng.choice(h["edges"])
-        if "standard_order" in e[2] and rng.random() < 0.5:
+        if rng.random() < 0.2:
+            # absent <-> present: the signature prints 0 vs 0.0, the exact label '' vs '0.0'
+            if "standard_order" in e[2]:
+                del e[2]["standard_order"]
+            else:
+                e[2]["standard_order"] = 0.0
+        elif "standard_order" in e[2] and rng.random() < 0.5:
             e[2]["standard_order"] = rng.choice([x for x in (0.0, 1.0, -1.0, 0.5) if x != e[2]["standard_order"]])
         else:
             e[2]["order"] = rng.choice([x for x in (1.0, 2.0, 1.5, 3.0) if x != e[2]["order"]])
@@ -798,6 +814,10 @@ def _random_graph(rng, nmax):
     if rng.random() < 0.3:
         for e in g["edges"]:
             e[2]["standard_order"] = rng.choice([0.0, 1.0, -1.0, 0.5, -0.5])
+    elif rng.random() < 0.15:
+        for e in g["edges"]:
+            if rng.random() < 0.5:
+                e[2]["standard_order"] = rng.choice([0.0, 0.0, 1.0, -0.5])
     if amap and rng.random() < 0.3:
         vals = [a["atom_map"] for _, a in g["nodes"]]
         rng.shuffle(vals)
@@ -839,11 +859,11 @@ def gen_cases(tier, rng):
     for nm, g in _families():
         cases.append(_graph_case("family", g, rng, nalts=3 if tier == "quick" else 6, nothers=1, name="family/" + nm))
     # seeded random graphs
-    nrand = 250 if tier == "quick" else 4000
+    nrand = 250 if tier == "quick" else 2500
     for _ in range(nrand):
         cases.append(_graph_case("random", _random_graph(rng, 9), rng, nalts=2, nothers=2))
     if tier == "thorough":
-        for _ in range(6000):
+        for _ in range(3000):
             g = GG.random_graph(rng, 5, p_edge=rng.choice([0.3, 0.5, 0.7]), elements=("C", "O"), orders=(1, 2), charges=(0,), hcounts=(0, 1))
             cases.append(_graph_case("rand5", _norm_graph(g, amap=False), rng, nalts=2, nothers=1))
     # random batches: relabelled copies mixed with mutants (nauty: iso <=> equal signature)
@@ -855,10 +875,17 @@ def gen_cases(tier, rng):
     return cases
 
 
-LEVEL_TEXT = ("Machine-checked proof (Coq) over an executable model of the four canonicalisation back-ends, the serialisation that feeds the digest "
-              "and the individualisation-refinement search of nauty.py; the model is tied to the Python code on every run by comparing canonical "
-              "permutation, best label, every _refine call, canonical graphs and serialisation strings on exhaustive small scopes, symmetric "
-              "families and seeded random graphs.")
+LEVEL_TEXT = ("Machine-checked proof (Coq) over an executable model of the four canonicalisation back-ends, the serialisation that feeds the digest, "
+              "the individualisation-refinement search of nauty.py and the equality of the value wrappers: faithfulness and onto-1..N (all "
+              "back-ends), signature = function of the graph (all back-ends), equal signatures => isomorphic (all back-ends), exact back-end "
+              "invariant under any renumbering / re-ordering / re-orientation, wrappers equal exactly for isomorphic content - all for "
+              "every well-formed graph, no size bound.  The model is tied to the Python code on every run by comparing canonical permutation, "
+              "best label, every _refine call, canonical graphs, serialisation strings, digest equality patterns and wrapper verdicts on "
+              "exhaustive small scopes, symmetric families and seeded random graphs.")
 LEVEL_NOTE = ("Trusted: Coq kernel + vm_compute; the hand-written model and the harness encoders; networkx Graph semantics; collision-freeness of "
-              "truncated SHA-256 (explicit premise). WL colours / Morgan labels are oracle inputs of the model. The value-object wrappers "
-              "(SynGraph, CanonicalGraph, SynRule) are checked by the property oracle only.")
+              "truncated SHA-256 on the strings compared (explicit premise, monitored). WL colours / Morgan labels are oracle inputs of the "
+              "model. SynRule is modelled as three fragment graphs; its construction from an ITS graph is checked by the oracle only.")
+TECHNIQUE = ("Coq 8.16 proof about an executable Gallina model (generic individualisation-refinement theory lib/IRCore + lib/IRSearch "
+             "instantiated for nauty.py; separator-parsing injectivity of the serialisation and label strings) + per-run correspondence "
+             "(vm_compute digest vs implementation) + independent brute-force isomorphism oracle")
+DESIGN_REF = "DESIGN.md section 5 C08, Appendix A.2/A.3; notes/C08.md"
